@@ -86,7 +86,8 @@ def match_tag(token, regex=match_tag_prefix_and_name):
         simple_value = attr.pop('simple_value', None)
         if simple_value is not None:
             attr['quote'] = ''
-            attr['value'] = ''
+            # the empty value keeps its place in the source
+            attr['value'] = simple_value
             attr['eq'] = ''
         attrs.append(attr)
         d['suffix'] = token[m.end():]
